@@ -229,5 +229,42 @@ TEXTS = {
         "note": "Trusted: as C01; SHA-256 values are interned tags (equal tag <=> equal hash string computed by the real LoaderChecksum::gen).",
         "technique": "Coq invariant proof over the builder model with a lockfile + differential testing of loader/locker call logs + real two-build self-consistency check",
     },
+    "C16": {
+        "text": ("(a) Export resolution: Coq theorems over an executable model of exports_and_re_exports_inner / "
+                 "exports_and_re_exports / ModuleInfoRef::exports with the shared visited set (Model/Symbols.v), for ALL "
+                 "module tables: the set of names resolved at a module equals its own names plus the non-default own "
+                 "names of every module reachable through one or more resolved star re-exports (least fixed point, "
+                 "C16_exports_set), an own name resolves to the module's own binding (C16_own_first), fuel = number of "
+                 "modules suffices with cyclic re-exports (C16_terminates); which binding an ambiguous name lands on is "
+                 "first-found and not part of the statement. The complete real resolved map (with re-export paths) and "
+                 "unresolved list of every module of every explored program is compared with the extracted model, and "
+                 "the real name set is judged by a decision procedure proved equivalent to the declarative statement. "
+                 "(b) Tree shape: the 3100-line SymbolFiller is NOT modelled; wf_symtabb is proved sound "
+                 "(C16_wf_checker_sound: unique ids, parentless root, every other symbol has an existing parent and - if "
+                 "all its declarations are definitions - is listed there exactly once among children+members and not in "
+                 "both, alias symbols are not listed, every listed id exists and has the lister as parent, parent chains "
+                 "reach the root, root paths are unique and exist for definition chains, export ids exist, declarations "
+                 "carry the symbol's name and a range inside the text) and run on the real table of every module of the "
+                 "symbol/graph spec corpus and of generated programs. (c) go-to-definition: find_definition_paths_internal / "
+                 "go_to_file_export are modelled for the fragment without qualified names; for ALL tables the model "
+                 "terminates with fuel = number of symbols + 1 and yields only existing Definition declarations or "
+                 "explicit markers (C16_goto_terminates_partial, C16_goto_sound_partial); the real ordered results of "
+                 "every symbol are compared with the model on every program without an `import X = A.B` declaration. "
+                 "Qualified names are not modelled - with them termination is false (F-C16c); there the real queries "
+                 "run under a watchdog and their results are judged by a proved-sound checker. Three genuine defects are recorded as known findings: "
+                 "F-C16a (valid TypeScript: a dotted namespace segment re-declared in its body becomes its own child), "
+                 "F-C16b (TypeScript-invalid conflicting declarations yield mixed alias/definition symbols; includes one "
+                 "of the repository's own specs), F-C16c (a circular import alias makes go-to-definition overflow the "
+                 "stack)."),
+        "design_ref": "DESIGN.md section 5 C16",
+        "note": ("Trusted: Coq kernel; extraction; the harness's dump of the symbol tables through the public API "
+                 "(ids from SymbolId's Debug form, names interned, ranges relative to the text start), its TS program "
+                 "generator, the spec-file parser, and - for known-finding classification only - its computation of the "
+                 "three input classes from the swc AST of the sources. (b) and (c) are translation validation of explored "
+                 "outputs, not proofs about the builder; termination of go-to-definition through qualified names is "
+                 "observed (5 s watchdog, child process for the known crashing class), not proved; the harness also "
+                 "supplies, per declaration, the symbol an swc id maps to and resolve_dependency's answer (data)."),
+        "technique": "Coq proof (DFS with shared visited set: invariant + closure argument giving the least fixed point; fuel bound) + differential testing of the extracted model against ModuleInfoRef::exports + proved-sound checkers (translation validation) on real symbol tables and go-to-definition results + watchdog",
+    },
 }
 NOT_YET = {}
